@@ -32,8 +32,7 @@
 (*                          never wraps; here it would wrap modulo 2^64.    *)
 (*                          The last block may be partial (keystream        *)
 (*                          truncated); Len(result) = Len(m).               *)
-(* TLC!TLCEval(v) = v; it only makes TLC evaluate an accumulator eagerly    *)
-(* instead of piling up one lazy thunk per iteration (stack depth).         *)
+(* TLC!TLCEval(v) = v; it only makes TLC evaluate a value eagerly, once.    *)
 (***************************************************************************)
 EXTENDS Words, TLC
 
@@ -96,10 +95,18 @@ SalsaExpand(key, n16) == SalsaExpandR(20, key, n16)
 \* s.10  block number i of the stream of nonce v is Salsa20_k(v, i as 8 bytes little-endian)
 SalsaBlock(key, nonce, ctr, rounds) == SalsaExpandR(rounds, key, nonce \o WToLE(ctr))
 
-RECURSIVE SalsaXorR(_,_,_,_,_,_)
-SalsaXorR(key, nonce, ctr, rounds, m, acc) ==
-  IF Len(m) = 0 THEN acc
-  ELSE SalsaXorR(key, nonce, WAddNat(ctr, 1), rounds, Drop(m, 64),
-                 TLCEval(acc \o XorBytes(Take(m, 64), SalsaBlock(key, nonce, ctr, rounds))))
-SalsaXor(key, nonce, ctr0, rounds, m) == SalsaXorR(key, nonce, ctr0, rounds, m, <<>>)
+\* Block b (b = 0, 1, ...) of the output is block b of m xor the keystream block number ctr0 + b mod 2^64
+\* (the last block of m may be short; XorBytes truncates the keystream).  The blocks are computed as the
+\* values of a function over the block indices and then concatenated: a recursion over the blocks would
+\* make TLC evaluate block b in a context of depth O(b) (identifier lookups walk it: quadratic time).
+\* Len(m) < 2^31 bytes, hence b < 2^25 fits WAddNat.
+RECURSIVE SalsaCat(_,_,_,_)
+SalsaCat(f, b, nb, acc) == IF b = nb THEN acc ELSE SalsaCat(f, b+1, nb, acc \o f[b])
+SalsaXor(key, nonce, ctr0, rounds, m) ==
+  LET L  == Len(m)
+      nb == (L + 63) \div 64
+      f  == TLCEval([b \in 0..(nb-1) |->
+                      XorBytes(SubSeq(m, 64*b + 1, IF 64*b + 64 < L THEN 64*b + 64 ELSE L),
+                               SalsaBlock(key, nonce, WAddNat(ctr0, b), rounds))])
+  IN SalsaCat(f, 0, nb, <<>>)
 =============================================================================
